@@ -14,8 +14,10 @@ MANIFEST = {
             'the requested count, so PRF(s) = PRF(s,n)[0] for all n>=1; bound=1 gives byte_length 0 and zeros without using '
             'the digest; 256^byte_length >= bound, no extra bytes exactly for powers of two (bound&(bound-1) test proved '
             'correct), len(key) extra bytes otherwise; little-endian decode/encode inverse. Determinism is definitional '
-            '(the model is a function of key, s, bound, n). The model is compared with thresha.PRF on every run with the '
-            'real SHAKE-128 digest supplied as data.',
+            '(the model is a function of key, s, bound, n only: C17_prf_history_independent), so any dependence of the '
+            'implementation on the call history is a correspondence break; the check runs stateful call histories on '
+            'long-lived PRF objects against fresh objects, the prefix-family property and the model. The model is compared '
+            'with thresha.PRF on every run with the real SHAKE-128 digest supplied as data.',
     'note': 'Trusted: Coq kernel+vm_compute; hashlib.shake_128 is an oracle (not modelled) whose prefix law '
             'digest(b)[:a] == digest(a) is assumed in the scalar/list consistency theorems and tested on hashlib each run; '
             'np.fromiter/reshape (shape requests) are NumPy and only tested (shape, C-order flattening); key+s concatenation '
@@ -61,7 +63,8 @@ def run(ctx):
     have_np = bool(np)
     ctx.rule = ('case = (key, bound, input s, n); keys of length 0/1/16/32, bounds: boundary list x all keys x all inputs x '
                 'all n (n = 50 and shapes on a sub-grid), plus the sweep 1..%d with rotating key/input/n; non-trivial when bound >= 2 and n != 0 '
-                '(the digest is actually used)' % ctx.n(1030, 5000))
+                '(the digest is actually used); plus stateful call histories (growing/shrinking/equal n, None/()/int/shape, '
+                'interleaved inputs) on one long-lived PRF object per (key, bound), each call compared with a fresh object' % ctx.n(1030, 5000))
     ctx.explanation = ('range/length/scalar-consistency/prefix theorems in Coq for all inputs; executable model evaluated on '
                        'the real digest bytes and compared exactly with thresha.PRF')
     keys = [b'', b'\x00', bytes(rng.randrange(256) for _ in range(16)), bytes(rng.randrange(256) for _ in range(32))]
@@ -163,6 +166,90 @@ def run(ctx):
         ctx.extra['digest_bytes_fed_to_model'] = ctx.extra.get('digest_bytes_fed_to_model', 0) + len(dk)
         exprs.append('prf_data %s %s %s %s' % (zlist(list(dk)), zlit(len(key)), zlit(bound), natlit(n_)))
         meta.append((desc, F.byte_length, flat))
+
+    # ---- stateful histories on ONE long-lived PRF object (as kept by Runtime.prfs): every result must equal that of a
+    # fresh PRF(key, bound) on the same call, agree with the stateless model, and all results for one input must be
+    # prefixes of one another (F(s, n)[:k] == F(s, k)), whatever was asked before.
+    def flat_of(out, n):
+        """canonical (kind, flat int list) of a result for request n; kind None if malformed"""
+        if n is None:
+            return ('scalar', [out]) if isinstance(out, int) else (None, repr(out))
+        if isinstance(n, tuple):
+            if not (hasattr(out, 'shape') and tuple(out.shape) == tuple(n)):
+                return (None, 'shape %s' % (getattr(out, 'shape', None),))
+            return ('shape', [int(v) for v in out.reshape(-1).tolist()])
+        return ('list', list(out)) if isinstance(out, list) else (None, repr(out))
+
+    def count_of(n):
+        if n is None:
+            return 1
+        if isinstance(n, tuple):
+            k = 1
+            for d in n:
+                k *= d
+            return k
+        return n
+
+    hist_bounds = [2, 3, 100, 255, 256, 257, 2**15, 2**16, 2**16 + 1, 2**23, 2**61 - 1, 2**64, 2**64 + 13, 1]
+    hist_bounds += [rng.randrange(2, 1 << rng.randrange(2, 90)) for _ in range(ctx.n(6, 40))]
+    shp = [(), (3,), (2, 3), (1, 1, 4), (0,), (2, 0)] if have_np else []
+    patterns = [
+        [None, 1, 2, 3, 5, 7, 12],                    # growing
+        [12, 7, 5, 3, 2, 1, None],                    # shrinking
+        [2, 3], [1, 2], [None, 5], [None, 2, None],   # the smallest growing pairs
+        [3, 3, 3, None, None, 0, 3],                  # equal / zero in between
+        [0, 1, 0, 2, 0, 4],
+    ]
+    if have_np:
+        patterns += [[(), None, (3,), 3, (2, 3), 6, (1, 1, 4), 4, 7, (2, 3)], [(2, 3), (3,), (), 12], [None, (), 1, (2, 0), (2, 3)]]
+    nhist = 0
+    for hb in hist_bounds:
+        for key in (keys if hb in (100, 257, 2**64 + 13) else [keys[rng.randrange(len(keys))]]):
+            F = thresha.PRF(key, hb)
+            seqs = []
+            for pat in patterns:                       # one input, pattern of n
+                seqs.append([(inputs[rng.randrange(3)], n) for n in pat])
+            for _ in range(ctx.n(2, 8)):               # interleaved inputs, random n
+                pool_s = [inputs[i] for i in rng.sample(range(len(inputs)), 3)]
+                seqs.append([(rng.choice(pool_s), rng.choice([None, 0, 1, 2, 3, 5, 7, 12] + shp)) for _ in range(12)])
+            seen = {}                                  # input -> longest flat list obtained so far on this object
+            step = 0
+            for seq in seqs:
+                for (s, n) in seq:
+                    step += 1
+                    nhist += 1
+                    desc = {'history': True, 'key_hex': key.hex(), 'bound': hb, 's_hex': s.hex()[:40], 'n': n, 'step': step}
+                    try:
+                        kind, flat = flat_of(F(s, n), n)
+                        fkind, fresh = flat_of(thresha.PRF(key, hb)(s, n), n)
+                    except Exception as e:
+                        viol('prf-raises-in-history %s' % type(e).__name__, key, hb, s, n, step=step, error=repr(e))
+                        continue
+                    if kind is None or fkind is None:
+                        viol('prf-history-malformed-result', key, hb, s, n, step=step, got=str(flat)[:200], fresh=str(fresh)[:200])
+                        continue
+                    n_ = count_of(n)
+                    if flat != fresh or kind != fkind:
+                        viol('prf-history-dependent', key, hb, s, n, step=step, got=flat, fresh=fresh,
+                             calls_before=[[a.hex()[:16], b] for a, b in seq[:seq.index((s, n)) + 1]][-6:])
+                    if len(flat) != n_ or any((not isinstance(v, int)) or not (0 <= v < hb) for v in flat):
+                        viol('prf-history-length-or-range', key, hb, s, n, step=step, got=flat)
+                    prev = seen.get(s, [])
+                    k = min(len(prev), len(flat))
+                    if prev[:k] != flat[:k]:
+                        viol('prf-history-not-prefix-consistent', key, hb, s, n, step=step, got=flat, earlier=prev)
+                    if len(flat) > len(prev):
+                        seen[s] = flat
+                    ctx.case(desc, nontrivial=(hb >= 2 and n_ >= 1 and step > 1), kind='history ' + kind)
+                    l_ref, dk, want = ref_prf(key, hb, s, n_)
+                    if flat != want:
+                        ctx.broken.append({'kind': 'reference', 'what': 'PRF (long-lived object) differs from the reference',
+                                           'case': desc, 'impl': str(flat)[:200], 'ref': str(want)[:200]})
+                    if step % 3 == 0 or n_ >= 5:       # stateless Coq model on a share of the history calls
+                        ctx.extra['digest_bytes_fed_to_model'] = ctx.extra.get('digest_bytes_fed_to_model', 0) + len(dk)
+                        exprs.append('prf_data %s %s %s %s' % (zlist(list(dk)), zlit(len(key)), zlit(hb), natlit(n_)))
+                        meta.append((desc, F.byte_length, flat))
+    ctx.extra['history_calls_on_long_lived_objects'] = nhist
 
     # the prefix law, on hashlib itself (rate of SHAKE-128 is 168 bytes: cross block boundaries)
     lens = [0, 1, 2, 16, 17, 41, 167, 168, 169, 335, 336, 337, 1000, 2050]
